@@ -8,6 +8,7 @@ else (nested graph) the inner graph's own binding/default, else signature defaul
 from __future__ import annotations
 
 import copy
+import inspect
 from typing import Any
 
 from .build import _EMIT_SENTINEL, Env, make_function, py_val
@@ -177,6 +178,8 @@ def _run_node(program: list[dict], gi: int, n: dict, kwargs: dict, env: Env, res
         return {ren.get(k, k): v for k, v in inner.values.items() if k in exposed}
     fn = make_function(n, f"{gi}:{n['name']}", env, is_async=False)
     out = fn(**kwargs)
+    if inspect.isgenerator(out):
+        out = list(out)          # a generator object is a stream of items: the value of the node is their list
     res.calls.append((f"{gi}:{n['name']}", dict(kwargs)))
     douts = n.get("dataOuts", [])
     if not douts:
@@ -276,6 +279,8 @@ def eval_gated(program: list[dict], gi: int, provided: dict[str, Any], env: Env)
                 res.error = e
                 res.failed_node = name
                 break
+            if inspect.isgenerator(out):
+                out = list(out)
             res.calls.append((f"{gi}:{name}", dict(kwargs)))
             done.add(name)
             res.ran.append(name)
